@@ -367,6 +367,39 @@ def monitor_euler2SO3(ck, dn, rng, shape):
     ck.digests.update(int(v) ^ key_digest(("euler2SO3", dn)) for v in row_digests(er))
 
 
+def monitor_euler2SO3_argument_forms(ck, rng):
+    """The documented non-tensor / integer-typed forms of the angles (Python lists of ints or floats, integer tensors):
+    the rotation is Rz Ry Rx of those numbers (a whole number of radians is an angle like any other)."""
+    u = lie.u_of(torch.float32)
+    for form in ("list-of-ints", "nested-list-of-ints", "int64-tensor", "int32-tensor", "list-of-floats", "float64-list-as-tensor"):
+        for rep in range(6):
+            n = 1 if form in ("list-of-ints", "list-of-floats") else int(rng.integers(1, 5))
+            if "float" in form:
+                e = rng.uniform(-3, 3, (n, 3))
+            else:
+                e = rng.integers(-6, 7, (n, 3)).astype(np.float64)
+                if rep == 0:
+                    e[0] = [0, 0, 1]
+            arg = {"list-of-ints": lambda: [int(v) for v in e[0]], "nested-list-of-ints": lambda: [[int(v) for v in r] for r in e],
+                   "int64-tensor": lambda: torch.tensor(e).to(torch.int64), "int32-tensor": lambda: torch.tensor(e).to(torch.int32),
+                   "list-of-floats": lambda: [float(v) for v in e[0]], "float64-list-as-tensor": lambda: torch.tensor(e.tolist(), dtype=torch.float64)}[form]()
+            reg = f"euler2SO3/argument-form/{form}"
+            wit = {"form": form, "euler(roll,pitch,yaw)": e.tolist()}
+            ok, X = conv_call(ck, "euler2SO3", reg, "convert.euler2SO3", lambda: pp.euler2SO3(arg), lambda: wit)
+            ck.count("euler2SO3", reg, key=(form, rep, e.tobytes()))
+            if not ok:
+                continue
+            if not ck.check(isinstance(X, pp.LieTensor) and X.ltype is pp.SO3_type and X.is_floating_point() and X.shape[-1] == 4,
+                            "euler2SO3", reg, "convert.euler2SO3", "type_or_shape", lambda: dict(wit, got=repr(X)[:200])):
+                continue
+            q = raw(X).reshape(-1, 4)
+            uu = lie.u_of(X.dtype)
+            d = np.abs(L.quat_R(q) - rot_zyx(e[:len(q)])).max((-1, -2)).astype(np.float64)
+            ck.ratios("euler2SO3", reg, d, C_E2S * uu * (1 + np.abs(e[:len(q)]).max(-1)), "convert.euler2SO3", "not_Rz_Ry_Rx", lambda i: wit)
+            ck.ratios("euler2SO3", reg, np.abs(L.quat_norm(q) - 1).astype(np.float64), C_Q * uu, "convert.euler2SO3", "quaternion_not_unit", lambda i: wit)
+            ck.mark("euler2SO3/form:" + form)
+
+
 def monitor_euler_roundtrip(ck, kind, dn, rng, shape, eps):
     """X.euler(eps) for group elements X whose rotation is built from Euler angles (so that the pitch
     can be placed next to the gimbal band) or from the hostile quaternion recipes."""
@@ -522,6 +555,12 @@ def monitor_check(ck, kind, dn, rng, n_cases, tols):
             M4[pos, :3, 3] = t
             Mt = layout_of(torch.as_tensor(np.asarray(M4, dtype=np.float64).reshape(tuple(shape) + (4, 4))).to(dtype), layout).clone()
             Ar = L.ld(Mt).reshape((-1,) + tuple(Mt.shape[-2:]))[:, :3, :3]
+            # how the matrix takes part in autograd has no bearing on whether it is a valid rotation
+            amode = ("plain", "requires_grad", "plain", "parameter", "non-leaf", "no_grad")[c % 6]
+            wrap = {"plain": lambda M_: M_, "requires_grad": lambda M_: M_.clone().requires_grad_(True), "parameter": lambda M_: torch.nn.Parameter(M_.clone()),
+                    "non-leaf": lambda M_: M_.clone().requires_grad_(True) * 1.0, "no_grad": lambda M_: M_.clone().requires_grad_(True)}[amode]
+            Mt = wrap(Mt)
+            ck.mark("check/autograd:" + amode)
             dfc = defect(kind, Ar, rtol, atol)
             reg = f"{fname}/{kind}/{dn}/{layout}/tol={atol:g}"
             wit = witness_mat(kind, dn, layout, Mt, fname)
@@ -530,18 +569,22 @@ def monitor_check(ck, kind, dn, rng, n_cases, tols):
                 try:
                     with warnings.catch_warnings():
                         warnings.simplefilter("ignore")
-                        f(Mt, check=True, **kw)
+                        if amode == "no_grad":
+                            with torch.no_grad():
+                                f(Mt, check=True, **kw)
+                        else:
+                            f(Mt, check=True, **kw)
                 except ValueError:
                     raised = True
                 except Exception as e:  # noqa
                     other = repr(e)[:300]
-                ck.count("check_rejects", f"{reg}/{cls}", key=(kind, dn, layout, fname, Mt.double().numpy().tobytes()))
+                ck.count("check_rejects", f"{reg}/{cls}", key=(kind, dn, layout, fname, Mt.detach().double().numpy().tobytes()))
                 ck.mark(f"reject/{kind}/{dn}/{cls}")
                 ck.mark(f"reject-batch/{kind}/{dn}/{'single' if nb == 1 else 'one-bad-of-many'}")
                 ck.check(raised, "check_rejects", reg, f"convert.{fname}[{kind}]",
                          "invalid_matrix_accepted:" + cls if other is None else "wrong_exception_type",
                          lambda: dict(wit(pos), invalid_class=cls, measured_defect_over_tol=float(min(dfc[pos], 1e300)),
-                                      position_in_batch=pos, rtol=rtol, atol=atol, exception=other))
+                                      position_in_batch=pos, rtol=rtol, atol=atol, exception=other, autograd=amode))
                 ck.note_add("invalid_cases_judged")
             else:
                 ck.note_add("invalid_cases_discarded_defect_below_10x")
@@ -554,11 +597,12 @@ def monitor_check(ck, kind, dn, rng, n_cases, tols):
             M4v[:, 3, 3] = 1
             Mv = layout_of(torch.as_tensor(np.asarray(M4v, dtype=np.float64).reshape(tuple(shape) + (4, 4))).to(dtype), layout).clone()
             dv = defect(kind, L.ld(Mv).reshape((-1,) + tuple(Mv.shape[-2:]))[:, :3, :3], rtol, atol)
+            Mv = wrap(Mv)
             if np.all(dv <= 0.1):
                 witv = witness_mat(kind, dn, layout, Mv, fname)
                 ok, out = conv_call(ck, "check_accepts", reg, f"convert.{fname}[{kind}]", lambda: f(Mv, check=True, **kw),
                                     lambda: dict(witv(0), measured_defect_over_tol=float(dv.max()), rtol=rtol, atol=atol))
-                ck.count("check_accepts", reg, key=(kind, dn, layout, fname, Mv.double().numpy().tobytes()))
+                ck.count("check_accepts", reg, key=(kind, dn, layout, fname, Mv.detach().double().numpy().tobytes()))
                 ck.note_max("max_valid_defect_over_tol", float(dv.max()))
             else:
                 ck.note_add("valid_cases_discarded_defect_above_0.1x")
@@ -643,6 +687,10 @@ def run(ck):
         for nm in ("principal", "beyond", "multiples-of-pi/2", "near-gimbal", "large-or-tiny"):
             ck.require(f"euler2SO3/{dn}/{nm}")
         ck.require(f"euler-band/{dn}/inside", f"euler-band/{dn}/within-2x-of-edge")
+    if ck.shard == 1 % ck.nshards:
+        monitor_euler2SO3_argument_forms(ck, rng)
+    ck.require(*["euler2SO3/form:" + f_ for f_ in ("list-of-ints", "nested-list-of-ints", "int64-tensor", "int32-tensor", "list-of-floats")])
+    ck.require("check/autograd:requires_grad", "check/autograd:parameter", "check/autograd:non-leaf", "check/autograd:no_grad")
     ck.floor("from_matrix_ref", 20000)
     ck.floor("from_matrix_pp", 5000)
     ck.floor("euler2SO3", 2000)
